@@ -12,6 +12,7 @@
 #include <cmath>
 #include <complex>
 #include <limits>
+#include <numeric>
 #include <type_traits>
 
 #include <dune/common/typeutilities.hh>
@@ -135,13 +136,20 @@ namespace Dune
     if( k < 0 || k > n )
       return 0;
 
-    if (2*k > n)
+    // use the symmetry to keep the loop short (n-k cannot overflow here, 2*k can)
+    if (k > n-k)
       return binomial(n, n-k);
 
+    // After step i the value is binomial(n-k+i, i).  The factor (n-k+i)/i is applied in
+    // lowest terms, dividing first, so that no intermediate value exceeds the result.
     T bin = 1;
-    for(auto i = n-k; i < n; ++i)
-      bin *= i+1;
-    return bin / factorial(k);
+    for(T i = 1; i <= k; ++i)
+    {
+      const T m = n-k+i;
+      const T g = std::gcd(m, i);
+      bin = (bin / (i/g)) * (m/g);
+    }
+    return bin;
   }
 
   //! calculate the binomial coefficient n over k as a constexpr
